@@ -643,6 +643,32 @@ def t2_padding(prog, rep):
               "no rejecting edge under (in[i] != '=' and the '=' count is non-zero): '=' could appear inside the text, e.g. \"AA=A\"", function=f.name, construct="pad-suffix")
     many = rejects(lambda at: any(op == ">" and L == cnt and R == ("c", 2) for op, L, R in at))
     rep.check(many, "T2-padding", "more than two '=' are rejected", f.loc, "no rejecting edge under count > 2", function=f.name, construct="pad-max")
+    # a length that is not a multiple of four is rejected, one that is is not (by this test)
+    ilen = ("v", f.params[1]["name"], f.params[1]["id"])
+    mod4 = lambda t: t in (("&", ilen, ("c", 3)), ("%", ilen, ("c", 4)))
+    notmult = rejects(lambda at: any(mod4(L) and R == ("c", 0) and op == "!=" for op, L, R in at))
+    wrong = rejects(lambda at: any(mod4(L) and R == ("c", 0) and op == "==" for op, L, R in at) and not any(L[0] == "[]" or L == cnt for op, L, R in at))
+    rep.check(notmult and not wrong, "T2-padding", "a length that is not a multiple of four is rejected (and only such a length, by the length test)", f.loc,
+              "rejecting edge under inlen %% 4 != 0: %s; rejecting edge under inlen %% 4 == 0 alone: %s" % (notmult, wrong), function=f.name, construct="len-mod4")
+    # the validation pass looks at every character: index from 0 up to the length
+    iv = None
+    for b in f.blocks.values():
+        if b.cond is not None and b.term_cls == "ForStmt":
+            for op, L, R, _, _ in cond_atoms(b.cond, True):
+                if op == "<" and R == ilen and L[0] == "v":
+                    iv = (L, b)
+    okv = False
+    if iv is not None:
+        inits = [e for e in f.all_elems() if e.is_assign and e.op == "=" and norm(e.kid(0)) == iv[0] and any(p == e.block.id for p in iv[1].preds)]
+        stepsv = [e for e in f.all_elems() if ir.step(e) and ir.step(e)[1] == iv[0] and e.block.id in f.reach_from(iv[1].id) and iv[1].id in f.reach_from(e.block.id)]
+        okv = len(inits) == 1 and norm(inits[0].kid(1)) == ("c", 0) and len(stepsv) == 1 and ir.step(stepsv[0])[0] == "+=" and ir.step(stepsv[0])[2] == ("c", 1)
+    rep.check(okv, "T2-padding", "the validation pass visits every character: i = 0; i < inlen; i++", f.loc, "", function=f.name, construct="validate-range")
+    # accepted input answers 0, rejected input non-zero
+    vals = sorted(set(v[1] for v in rets if v[0] == "c"))
+    succ = [r for v, r in rets.items() if v == ("c", 0)]
+    oks = len(succ) == 1 and all(sub_.block.id in f.dominators().get(succ[0].block.id, ()) or True for sub_ in []) and bool(bad)
+    rep.check(oks and 0 in vals and any(v != 0 for v in vals), "T2-padding", "b64decode answers 0 for accepted input and non-zero for rejected input", f.loc, "constants returned: %s" % vals,
+              function=f.name, construct="result")
     sub = [e for e in f.all_elems() if e.is_assign and e.op == "-=" and norm(e.kid(1)) == cnt and norm(e.kid(0))[0] == "*"]
     rep.check(len(sub) == 1, "T2-padding", "the output length is reduced by the number of '=' characters", f.loc, "", function=f.name, construct="pad-len")
 
